@@ -4,7 +4,7 @@
 EXTENDS C13Domain, Json, IOUtils
 
 CaseSeq ==
-  LET raw == SetToSeq(AttrCases \cup TreeCases) IN
+  LET raw == SetToSeq(AttrCases \cup TreeCases) \o SetToSeq(SpreadOffCases) IN
   [i \in 1..Len(raw) |->
      [case |-> "C13-" \o ToString(i), prop |-> "C13", opts |-> raw[i].opts, kind |-> raw[i].kind,
       slotflags |-> IF raw[i].kind = "tree" THEN PredictSlotFlags(raw[i].elem, raw[i].opts) ELSE <<>>,
